@@ -63,6 +63,8 @@ func (a Action) String() string {
 		return fmt.Sprintf("n%d.leaveTo(n%d)", a.Node, a.Peer)
 	case "tick":
 		return fmt.Sprintf("tick(%d)", a.Dt)
+	case "setMax":
+		return fmt.Sprintf("setMaxPacketSize(%d)", a.Th)
 	case "liveness":
 		return fmt.Sprintf("n%d.liveness", a.Node)
 	case "sweep":
@@ -396,6 +398,13 @@ func (s *Sim) Apply(a Action) {
 		s.Stats["leave_streams"]++
 	case "tick":
 		s.Clock += a.Dt
+	case "setMax":
+		s.Cfg.MaxPacketSize = a.Th
+		for _, m := range s.Nodes {
+			if m.Started {
+				m.V.SetMaxPacketSize(a.Th)
+			}
+		}
 	case "liveness":
 		n.V.UpdateLiveness(float64(gossip.VSuspicionThreshold))
 		s.Stats["liveness_evals"]++
